@@ -38,7 +38,7 @@ REPLAY = [
     dict(mod='c04', take={'quick': None, 'thorough': None}, stride={'quick': 1, 'thorough': 3}),
     dict(mod='c06', take={'quick': None, 'thorough': None}, stride={'quick': 2, 'thorough': 4}),
     dict(mod='c07', take={'quick': ('h_c07q_0',), 'thorough': ('h_c07t_0', 'h_c07t_1', 'h_c07t_2')}, stride={'quick': 1, 'thorough': 1}),
-    dict(mod='c08', take={'quick': ('h_c08', 'h_c08c', 'h_c08n', 'h_c08r'), 'thorough': ('h_c08', 'h_c08c', 'h_c08n', 'h_c08r', 'h_c08f1')},
+    dict(mod='c08', take={'quick': ('h_c08', 'h_c08c', 'h_c08n', 'h_c08r'), 'thorough': ('h_c08', 'h_c08c', 'h_c08n', 'h_c08r')},
          stride={'quick': 2, 'thorough': 4}),
     # C05 (slice), C12 (SIMD), C16 (linear algebra), C17 (NN): append here once their modules are merged, e.g.
     # dict(mod='c05', take={'quick': None, 'thorough': None}, stride={'quick': 1, 'thorough': 1}),
